@@ -94,7 +94,7 @@ def merge(c, a, b):
     if isinstance(a, VNone) and isinstance(b, VNone):
         return a
     if isinstance(a, VFloat) and isinstance(b, VFloat):
-        return VFloat(z3.If(c, a.e, b.e))
+        return VFloat(z3.If(c, a.r, b.r), z3.If(c, a.cls, b.cls))
     raise Unsupported("cannot merge %r and %r" % (a, b))
 
 
@@ -121,13 +121,13 @@ def val_eq(a, b):
     if isinstance(a, VPy) and isinstance(b, VPy):
         return z3.BoolVal(a.obj == b.obj)
     if isinstance(a, VFloat) and isinstance(b, VFloat):
-        return z3.fpEQ(a.e, b.e)
+        return z3.And(a.cls != 1, b.cls != 1, a.cls == b.cls, z3.Or(a.cls != 0, a.r == b.r))
     if isinstance(a, VFloat) and isinstance(b, (VInt, VBool)):
         return val_eq(b, a)
     if isinstance(a, (VInt, VBool)) and isinstance(b, VFloat):
         # Python compares int and float exactly (mathematically); NaN / inf equal no int
         ae = a.e if isinstance(a, VInt) else z3.If(a.e, 1, 0)
-        return z3.And(z3.Not(z3.fpIsNaN(b.e)), z3.Not(z3.fpIsInf(b.e)), z3.ToReal(ae) == z3.fpToReal(b.e))
+        return z3.And(b.finite, z3.ToReal(ae) == b.r)
     if isinstance(a, VRef) and isinstance(b, VRef):
         if a.oid == b.oid:
             return z3.BoolVal(True)
@@ -228,7 +228,14 @@ def lift(obj):
     if isinstance(obj, str):
         return VChar(ord(obj)) if len(obj) == 1 else VCStr(obj)
     if isinstance(obj, float):
-        return VFloat(z3.FPVal(obj, z3.Float64()))
+        import math as _m
+        if _m.isnan(obj):
+            return VFloat(z3.RealVal(0), 1)
+        if _m.isinf(obj):
+            return VFloat(z3.RealVal(0), 2 if obj > 0 else 3)
+        from fractions import Fraction
+        fr = Fraction(obj)
+        return VFloat(z3.RealVal(fr.numerator) / z3.RealVal(fr.denominator), 0)
     if isinstance(obj, type):
         return VCls(obj)
     if isinstance(obj, tuple) and all(isinstance(x, (int, str, bool, type(None))) for x in obj):
@@ -254,7 +261,7 @@ def truth(v):
     if isinstance(v, VPy):
         return z3.BoolVal(bool(v.obj))
     if isinstance(v, VFloat):
-        return z3.Not(z3.fpIsZero(v.e))
+        return z3.Not(z3.And(v.finite, v.r == 0))
     raise Unsupported("truth of %r" % (v,))
 
 
@@ -381,6 +388,9 @@ class SpecTranslator:
             return lift(env.funcs[node.id])
         if node.id in ("True", "False", "None"):
             return lift(eval(node.id))
+        import builtins as _b
+        if hasattr(_b, node.id):
+            return lift(getattr(_b, node.id))
         raise Unsupported("unknown name %s in spec expression" % node.id)
 
     def e_Tuple(self, node, env):
@@ -395,9 +405,14 @@ class SpecTranslator:
         raise Unsupported("unary op")
 
     def e_BoolOp(self, node, env):
-        vals = [self.expr(x, env) for x in node.values]
-        bs = [truth(v) for v in vals]
-        return VBool(z3.And(bs) if isinstance(node.op, ast.And) else z3.Or(bs))
+        is_and = isinstance(node.op, ast.And)
+        bs = []
+        for x in node.values:
+            b = z3.simplify(truth(self.expr(x, env)))
+            if (is_and and z3.is_false(b)) or (not is_and and z3.is_true(b)):
+                return VBool(b)          # statically short-circuited: later operands need not be well-kinded
+            bs.append(b)
+        return VBool(z3.And(bs) if is_and else z3.Or(bs))
 
     def e_IfExp(self, node, env):
         c = truth(self.expr(node.test, env))
@@ -472,6 +487,18 @@ class SpecTranslator:
             return {"Lt": a.e < b.e, "LtE": a.e <= b.e, "Gt": a.e > b.e, "GtE": a.e >= b.e}[op]
         if isinstance(a, VStr) and isinstance(b, VStr):
             return str_cmp(op, a, b)
+        if isinstance(a, (VFloat, VInt)) and isinstance(b, (VFloat, VInt)):
+            # Python compares int and float exactly: through the reals, NaN compares false, infinities extreme
+            def parts(v):     # (real value, cls)
+                return (z3.ToReal(v.e), z3.IntVal(0)) if isinstance(v, VInt) else (v.r, v.cls)
+            (ra, ca), (rb, cb) = parts(a), parts(b)
+            # total order on the extended reals: -inf < finite < +inf ; NaN compares false
+            ka = z3.If(ca == 3, -1, z3.If(ca == 2, 1, 0))
+            kb = z3.If(cb == 3, -1, z3.If(cb == 2, 1, 0))
+            lt = z3.Or(ka < kb, z3.And(ka == 0, kb == 0, ra < rb))
+            eq = z3.And(ka == kb, z3.Or(ka != 0, ra == rb))
+            res = {"Lt": lt, "LtE": z3.Or(lt, eq), "Gt": z3.And(z3.Not(lt), z3.Not(eq)), "GtE": z3.Not(lt)}[op]
+            return z3.And(ca != 1, cb != 1, res)
         raise Unsupported("compare %s on %r, %r" % (op, a, b))
 
     def e_Subscript(self, node, env):
@@ -687,8 +714,12 @@ class SpecTranslator:
             if isinstance(st, ast.Return):
                 return self.expr(st.value, env) if st.value is not None else VNone()
             if isinstance(st, ast.If):
-                c = truth(self.expr(st.test, env))
+                c = z3.simplify(truth(self.expr(st.test, env)))
                 rest = stmts[i + 1:]
+                if z3.is_true(c):       # statically decided (kind tests on values of definite kind)
+                    return self.block(list(st.body) + rest, env.child({}))
+                if z3.is_false(c):
+                    return self.block(list(st.orelse) + rest, env.child({}))
                 a = self.block(list(st.body) + rest, env.child({}))
                 b = self.block(list(st.orelse) + rest, env.child({}))
                 return merge(c, a, b)
@@ -717,6 +748,9 @@ class SpecTranslator:
             if isinstance(a, VArr):
                 key_parts.append("@" + a.tag)
                 shapes.append(("arr", a))
+            elif isinstance(a, VRef):
+                key_parts.append("@obj")
+                shapes.append(("arr", a))        # opaque object parameter: closed over, not part of the signature
             elif isinstance(a, (VInt, VBool, VData)):
                 zargs.append(a.e)
                 shapes.append(("z", type(a), getattr(a, "adt", None), a.e.sort()))
@@ -804,7 +838,7 @@ class SpecTranslator:
         rshape = self._result_shape(f)
         arg_sorts = [s[3] for s in shapes if s[0] == "z"]
         rsorts = self._flat_sorts(rshape)
-        base = "%s%s" % (f.__name__, "".join(k for k in key[1:] if k.startswith("@")))
+        base = "%s%s" % (f.__name__, "".join(k for k in key[1:] if k.startswith("@") and k != "@obj"))
         funcs = [z3.RecFunction("%s#%d" % (base, i) if len(rsorts) > 1 else base, *(arg_sorts + [rs]))
                  for i, rs in enumerate(rsorts)]
         self.recfuns[key] = (funcs, rshape)
